@@ -163,7 +163,9 @@ func c16ErrClass(err error) string {
 		return "err:corrupted-index"
 	case errors.Is(err, io.EOF):
 		return "err:eof"
-	case errors.Is(err, singleapp.ErrCorruptedMetadata):
+	case errors.Is(err, io.ErrUnexpectedEOF):
+		return "err:unexpected-eof"
+	case errors.Is(err, singleapp.ErrCorruptedMetadata), errors.Is(err, appendable.ErrCorruptedMetadata):
 		return "err:corrupted-metadata"
 	}
 	return "err:other"
@@ -560,7 +562,7 @@ func c16ValidValRefs(rng *hx.Rng, txmds, kvmds [][]byte) [][]byte {
 	return out
 }
 
-func c16ValidAppmds(rng *hx.Rng) [][]byte {
+func c16ValidAppmds(rng *hx.Rng, big bool) [][]byte {
 	var out [][]byte
 	m := appendable.NewMetadata(nil)
 	out = append(out, m.Bytes())
@@ -575,6 +577,15 @@ func c16ValidAppmds(rng *hx.Rng) [][]byte {
 		m2.Put(fmt.Sprintf("k%d", k), rng.Bytes(rng.Size(40)))
 	}
 	out = append(out, m2.Bytes())
+	// longer than the 4096-byte buffer of the bufio.Reader: fields cross the buffer boundary.  Only for the
+	// repaired readField: the single-Read code lost the framing at the boundary and then took arbitrary bytes
+	// as lengths (c16AppmdDeclaredMax cannot predict them), i.e. allocations of some GiB
+	if big {
+		m3 := appendable.NewMetadata(nil)
+		m3.Put("BIG", rng.Bytes(4200))
+		m3.PutInt("AFTER", 77)
+		out = append(out, m3.Bytes())
+	}
 	return out
 }
 
@@ -786,6 +797,11 @@ type c16Run struct {
 	seen     map[string]bool
 	timeout  time.Duration
 	classCnt map[string]int
+	// appendable.readField does not allocate from a declared length (repaired; established by a probe at
+	// the start of every run): inputs declaring huge lengths are fed as well.  If the probe fails, the
+	// pre-repair caps apply again (a declared length of some GiB would end in the unrecoverable
+	// out-of-memory error instead of an oracle failure).
+	appmdBounded bool
 }
 
 // alloc bound used by the oracle: generous and linear in the input size
@@ -872,6 +888,18 @@ func runC16(r *hx.Result, rng *hx.Rng, thorough bool, replay string) error {
 		c.feed(t.dec, c16Input{t.b, "template"})
 	}
 
+	// appmd: does a declared length still size an allocation? (4 input bytes declaring 64 MiB; the same
+	// input is fed through the oracle as "alloc-probe" below)
+	{
+		pr := c16Guard(c.timeout, func() string { return c.decs["appmd"].call([]byte{0x04, 0, 0, 0}) })
+		c.appmdBounded = !pr.panicked && !pr.hung && pr.alloc <= c16AllocBound(4)
+		r.Extra["appmd.declared-length-not-allocated"] = fmt.Sprint(c.appmdBounded)
+	}
+	appmdCap := uint64(1 << 20) // u32 fields capped while a declared length IS the allocation size
+	if c.appmdBounded {
+		appmdCap = 0
+	}
+
 	// ---- pure decoders ----
 	txmds := c16ValidTxmds(rng)
 	kvmds := c16ValidKvmds()
@@ -889,7 +917,7 @@ func runC16(r *hx.Result, rng *hx.Rng, thorough bool, replay string) error {
 	valrefs := c16ValidValRefs(rng, txmds, kvmds)
 	valrefs = append(valrefs, prim1.idxVals...)
 	r.CountN("valref.real-index-values", len(prim1.idxVals))
-	appmds := c16ValidAppmds(rng)
+	appmds := c16ValidAppmds(rng, c.appmdBounded)
 
 	type family struct {
 		decs   []string
@@ -903,7 +931,7 @@ func runC16(r *hx.Result, rng *hx.Rng, thorough bool, replay string) error {
 		{[]string{"kvmd"}, kvmds, 0, 64, 16},
 		{[]string{"txhdr"}, hdrs, 0, 60, 420},
 		{[]string{"valref"}, valrefs, 0, 50, 120},
-		{[]string{"appmd"}, appmds, 1 << 20, 120, 64}, // u32 fields capped: a declared length IS the allocation size (see probe below)
+		{[]string{"appmd"}, appmds, appmdCap, 120, 64},
 	}
 	for _, f := range fams {
 		for vi, v := range f.valid {
@@ -914,7 +942,7 @@ func runC16(r *hx.Result, rng *hx.Rng, thorough bool, replay string) error {
 			}
 			for _, in := range c16Mutations(rng, v, nil, f.maxU32, budget*scale) {
 				for _, d := range f.decs {
-					if d == "appmd" && c16AppmdDeclaredMax(in.b) > 1<<20 {
+					if d == "appmd" && !c.appmdBounded && c16AppmdDeclaredMax(in.b) > 1<<20 {
 						r.Count("appmd.skipped-huge-declared-length")
 						continue
 					}
@@ -925,7 +953,7 @@ func runC16(r *hx.Result, rng *hx.Rng, thorough bool, replay string) error {
 		r.NextCase()
 		for _, in := range c16RandomInputs(rng, 300*scale, f.rndLen) {
 			for _, d := range f.decs {
-				if d == "appmd" && c16AppmdDeclaredMax(in.b) > 1<<20 {
+				if d == "appmd" && !c.appmdBounded && c16AppmdDeclaredMax(in.b) > 1<<20 {
 					r.Count("appmd.skipped-huge-declared-length")
 					continue
 				}
@@ -939,7 +967,8 @@ func runC16(r *hx.Result, rng *hx.Rng, thorough bool, replay string) error {
 	}
 	c16SQLValues(c, rng.Fork(), scale)
 	phase("sqlval")
-	// explicit allocation probe: 4 input bytes declaring a 64 MiB field (the Lean witness uses 2^32-1)
+	// explicit allocation probe: 4 input bytes declaring a 64 MiB field (fixed; fails with
+	// C16:appendable.Metadata.ReadFrom:alloc-exceeds-bound if readField allocates from the declared length again)
 	r.NextCase()
 	c.feed("appmd", c16Input{[]byte{0x04, 0, 0, 0}, "alloc-probe"})
 	runtime.GC()
@@ -970,7 +999,7 @@ func runC16(r *hx.Result, rng *hx.Rng, thorough bool, replay string) error {
 	r.Sample(map[string]interface{}{"decoder": "txmd", "input": "010005", "impl": c.decOut("txmd", []byte{1, 0, 5}), "model": "err:corruptedData (theorem txMetadata_readFrom_rejects_overrun; panic without the guard: txMetadata_readFrom_guard_needed)"})
 	r.Sample(map[string]interface{}{"decoder": "txmd", "input": "0000000000000000090100020708", "impl": c.decOut("txmd", []byte{0, 0, 0, 0, 0, 0, 0, 0, 9, 1, 0, 2, 7, 8})})
 	r.Sample(map[string]interface{}{"decoder": "kvmd", "input": "00010000000000000009" + "02", "impl": c.decOut("kvmd", []byte{0, 1, 0, 0, 0, 0, 0, 0, 0, 9, 2})})
-	r.Sample(map[string]interface{}{"decoder": "appmd", "input": "00000000", "impl": c.decOut("appmd", []byte{0, 0, 0, 0}), "model": "panic (theorem appMetadata_readFrom_panics)"})
+	r.Sample(map[string]interface{}{"decoder": "appmd", "input": "00000000", "impl": c.decOut("appmd", []byte{0, 0, 0, 0}), "model": "err:corrupted-metadata (theorem appMetadata_readFrom_rejects_short_count; panic before the repair)"})
 	if len(prim1.exported) > 0 {
 		r.Sample(map[string]interface{}{"decoder": "ReplicateTx", "valid_exported_tx_1": hx.Hex(prim1.exported[0])})
 	}
@@ -1760,13 +1789,13 @@ func c16SearchSingleapp(c *c16Run, rng *hx.Rng, scale int) {
 	inputs = append(inputs, c16Input{[]byte{0, 0, 0, 4, 0, 0, 0, 0}, "template"}, c16Input{[]byte{0, 0, 0, 0}, "template"}, c16Input{[]byte{0, 0, 0, 1, 7}, "template"})
 	inputs = append(inputs, c16RandomInputs(rng, 40*scale, 64)...)
 	for k, in := range inputs {
-		var l4 [4]byte // singleapp.Open also uses a single Read: a short length field is zero padded
+		var l4 [4]byte // singleapp.Open uses a single Read: a short length field is zero padded; it still allocates the declared header size
 		copy(l4[:], in.b)
 		if binary.BigEndian.Uint32(l4[:]) > 1<<24 {
 			r.Count("search-only.singleapp.Open.skipped-huge-declared-length")
 			continue
 		}
-		if len(in.b) >= 4 && c16AppmdDeclaredMax(in.b[4:]) > 1<<24 {
+		if len(in.b) >= 4 && !c.appmdBounded && c16AppmdDeclaredMax(in.b[4:]) > 1<<24 {
 			r.Count("search-only.singleapp.Open.skipped-huge-declared-length")
 			continue
 		}
